@@ -12,6 +12,7 @@ package main
 import (
 	"bytes"
 	"context"
+	crand "crypto/rand"
 	"encoding/binary"
 	"fmt"
 
@@ -489,5 +490,167 @@ func runUUID(c caseIn) (out *caseOut) {
 		out.IDs = append(out.IDs, idx)
 	}
 	out.Draws = src.log
+	return out
+}
+
+// ---- hybridnx mode: id generators over the shipped tiered facade whose cache tier has NO set-if-absent ----
+// hybrid.Storage.SetNX then falls back to Exists + Set on the cache tier; it is hybrid's per-key lock that has to make the
+// pair one critical section.  n callers, each with its OWN generator instance (so no generator mutex is shared), draw from a
+// 1-slot id space through one hybrid.Storage; Exists and Set of the cache double are gated like in the fallback mode.
+type plainCache struct {
+	*plainStore
+}
+
+// (no key folding here: hybrid's per-key lock is keyed by the real key, so the callers must collide on the REAL key —
+//  runHybridNX makes every caller draw the same candidates by installing a constant entropy source)
+func (p *plainCache) Exists(key string) (bool, error) {
+	p.wait()
+	return p.under.Exists(key)
+}
+func (p *plainCache) Set(key string, value any, ttl time.Duration) error {
+	p.wait()
+	return p.under.Set(key, value, ttl)
+}
+func (p *plainCache) Delete(key string) error           { return p.under.Delete(key) }
+func (p *plainCache) Get(key string) (any, error)       { return p.under.Get(key) }
+
+type constEntropy struct{}
+
+func (constEntropy) Read(b []byte) (int, error) {
+	for i := range b {
+		b[i] = 0x42
+	}
+	return len(b), nil
+}
+func (p *plainCache) SetExpiration(string, time.Duration) error { return nil }
+func (p *plainCache) GetExpiration(string) (time.Duration, error) { return 0, nil }
+func (p *plainCache) CleanupExpired() error                 { return nil }
+func (p *plainCache) Close() error                          { return nil }
+
+func runHybridNX(c caseIn) *caseOut {
+	out := &caseOut{PropOK: true, Sched: []int{}, Markers: []int{}, Threads: []thrOut{}}
+	ctx, cancel := context.WithCancel(context.Background())
+	defer cancel()
+	under := memory.New(ctx)
+	n := c.N
+	ps := &plainStore{Storage: under, under: under, who: map[int64]int{}, arrive: make(chan int, n), resume: make([]chan struct{}, n),
+		faultExists: map[int]bool{}, faultSet: map[int]bool{}}
+	hy := hybrid.New(ctx, &plainCache{ps}, nil, hybrid.DefaultConfig())
+	savedEntropy := crand.Reader
+	crand.Reader = constEntropy{} // every caller draws the same candidate: they collide on the real marker key
+	defer func() { crand.Reader = savedEntropy }()
+	type res struct{ ok bool }
+	results := make([]chan res, n)
+	for i := 0; i < n; i++ {
+		ps.resume[i] = make(chan struct{}, 1)
+		results[i] = make(chan res, 1)
+		go func(i int) {
+			ps.mu.Lock()
+			ps.who[goid()] = i
+			ps.mu.Unlock()
+			gen := idgen.NewStorageIDGenerator[int64](hy, "", "tunnox:id:used:client", ctx) // one generator PER caller
+			_, err := gen.Generate()
+			results[i] <- res{err == nil}
+		}(i)
+	}
+	parked := make([]bool, n)
+	finished := make([]bool, n)
+	got := 0
+	drain := func(d time.Duration) {
+		deadline := time.After(d)
+		for {
+			select {
+			case j := <-ps.arrive:
+				parked[j] = true
+			case <-deadline:
+				return
+			}
+		}
+	}
+	poll := func() {
+		for i := 0; i < n; i++ {
+			if !finished[i] {
+				select {
+				case r := <-results[i]:
+					finished[i] = true
+					if r.ok {
+						got++
+					}
+				default:
+				}
+			}
+		}
+	}
+	drain(30 * time.Millisecond)
+	steps := 0
+	for _, i := range c.Sched {
+		if i < 0 || i >= n || finished[i] || !parked[i] {
+			continue
+		}
+		parked[i] = false
+		ps.resume[i] <- struct{}{}
+		steps++
+		drain(3 * time.Millisecond)
+		poll()
+		if steps > 40 {
+			break
+		}
+	}
+	ps.mu.Lock()
+	ps.free = true
+	ps.mu.Unlock()
+	for i := 0; i < n; i++ {
+		if parked[i] {
+			ps.resume[i] <- struct{}{}
+		}
+	}
+	deadline := time.After(20 * time.Second)
+	for i := 0; i < n; i++ {
+		if finished[i] {
+			continue
+		}
+		select {
+		case r := <-results[i]:
+			if r.ok {
+				got++
+			}
+		case <-ps.arrive:
+			i--
+		case <-deadline:
+			out.PropOK, out.PropMsg = false, "hybridnx: a caller did not finish within 20s"
+			return out
+		}
+	}
+	if got > 1 {
+		out.PropOK = false
+		out.PropMsg = fmt.Sprintf("tiered store over a cache tier without set-if-absent, %d generator instances, one free slot: %d callers were handed the same id (hybrid's Exists+Set fallback of SetNX is not one critical section)", n, got)
+	}
+	return out
+}
+
+// ---- nodehb mode: the node-id lease is renewed while its holder lives ----
+// AllocateNodeID with a context that stays live; after one heartbeat period (+ slack) the slot marker must have been renewed:
+// remaining lifetime above NodeIDLockTTL - slack.  Real time (the 30 s ticker cannot be injected): run in parallel with the
+// other cases by the driver.
+func runNodeHB(c caseIn) *caseOut {
+	out := &caseOut{PropOK: true, Sched: []int{}, Markers: []int{}, Threads: []thrOut{}}
+	ctx, cancel := context.WithCancel(context.Background())
+	defer cancel()
+	under := memory.New(ctx)
+	a := node.NewNodeIDAllocator(under)
+	id, err := a.AllocateNodeID(ctx)
+	if err != nil {
+		out.PropOK, out.PropMsg = false, "AllocateNodeID failed: "+err.Error()
+		return out
+	}
+	key := node.NodeIDKeyPrefix + id
+	wait := time.Duration(c.N) * time.Millisecond // heartbeat period + slack, from Gen
+	time.Sleep(wait)
+	left, err := under.GetExpiration(key)
+	out.NodeIDs = []string{fmt.Sprintf("%s left=%v after %v", id, left.Round(time.Second), wait)}
+	if err != nil || left < node.NodeIDLockTTL-wait/2 { // renewed at one period: about TTL - slack left; never renewed: TTL - wait
+		out.PropOK = false
+		out.PropMsg = fmt.Sprintf("node id %s: %v after AllocateNodeID returned (holder alive, context live) the slot marker has %v left (err=%v) of its %v lease: the heartbeat did not renew it, so the id will be handed to another node while this one still holds it", id, wait, left, err, node.NodeIDLockTTL)
+	}
 	return out
 }
